@@ -96,6 +96,8 @@ func (r *Ref) eval(e *G, i int) []Res {
 		return []Res{{i, r.tree("E" + span(i, i))}}
 	case KNT:
 		return r.tab[e.NT][i]
+	case KSuppress:
+		return r.eval(e.Kids[0], i)
 	case KOpt:
 		out := append([]Res{}, r.eval(e.Kids[0], i)...)
 		return addRes(out, Res{i, r.tree("E" + span(i, i))})
